@@ -955,6 +955,9 @@ class TaintInterp:
         if b.kind == "nodedata":            # m.nodes.data(K)[a]
             g, key = b.x
             return sc(kt | g.x.get(key, E))
+        if b.kind == "map" and isinstance(b.oid, tuple) and b.oid[:1] == ("rank",) and k.kind == "node":
+            # the position of a node in the sequence the ranking was made from: an index into anything aligned with it
+            return V("igidx", without(tt(b.elem), ORDER) | without(kt, ORDER) | frozenset(t for t in kt if t[0] == ORDER and "orientation" in t[1]), x=b.oid[1])
         if b.kind == "map":
             return add(b.elem, kt)
         if b.kind == "seq":
@@ -1194,7 +1197,9 @@ class TaintInterp:
         if name == "enumerate":
             el, ot = self.iterate(a[0], fi, e)
             # positional numbering: the number attached to an element depends on the order
-            return seq(tup([sc(ot), el]), ot, a[0].oid)
+            src_ = a[0]
+            oid_ = ("iter", src_.oid) if src_.kind == "graph" else (("iter", src_.x.oid) if src_.kind == "nodeview" else src_.oid)
+            return seq(tup([sc(ot), el]), ot, oid_)
         if name == "reversed":
             el, ot = self.iterate(a[0], fi, e)
             return seq(el, ot, ("rev", a[0].oid))
